@@ -189,3 +189,37 @@ pub fn check_lang(code: &str, fragmented: bool, obs: &mut Obs) -> Vec<Violation>
     let a = Analysis::new(&h, &ex, &bytes, &[]);
     check_meta(&a, obs)
 }
+
+/// Malformed language codes: the stored value is not specified, but neither muxer may panic and
+/// what it writes must still be a well-formed media header.
+pub fn check_malformed_lang(code: &str, obs: &mut Obs) -> Vec<Violation> {
+    use crate::exec::{run, run_frag, ExecOpts};
+    let mut out = Vec::new();
+    obs.count("malformed_language_codes_tried", 1);
+    let fc = FragCfg { vcodec: H264, width: 640, height: 480, via_builder: true, timescale: 90_000, fragment_duration_ms: 2000, sps: Some(vec![0x67, 1, 2, 3]), pps: Some(vec![0x68, 1]), vps: None, av1_seq: None, vp9: None, lang: Some(code.to_string()) };
+    let h = FHistory { cfg: fc, ops: vec![FOp::Init] };
+    let ex = run_frag(&h, &ExecOpts::default());
+    if ex.build.is_panic() || ex.results.iter().any(|r| matches!(r, FRes::Panic { .. })) {
+        out.push(v("language|malformed-code-panics|fragmented".into(), format!("language {:?}: building the fragmented muxer / init_segment() panicked", code)));
+    } else if let Some(FRes::Bytes(b)) = ex.results.first() {
+        let tree = bmff::parse_tree(b);
+        if !tree.errors.is_empty() {
+            out.push(v("language|malformed-code-breaks-init-segment".into(), format!("language {:?}: init segment does not parse: {:?}", code, tree.errors.first())));
+        }
+    }
+    let mut cfg = Cfg::basic(H264);
+    cfg.path = 4;
+    cfg.lang = Some(code.to_string());
+    let hp = History { cfg, ops: vec![Op::Finish(FinishKind::InPlace)] };
+    let (exp, sink) = run(&hp, &ExecOpts::default());
+    if exp.any_panic() {
+        out.push(v("language|malformed-code-panics|progressive".into(), format!("language {:?}: build / finish panicked", code)));
+    } else if exp.results.last().map(|r| r.is_ok()).unwrap_or(false) {
+        let b = sink.bytes();
+        let tree = bmff::parse_tree(&b);
+        if !tree.errors.is_empty() {
+            out.push(v("language|malformed-code-breaks-file".into(), format!("language {:?}: file does not parse: {:?}", code, tree.errors.first())));
+        }
+    }
+    out
+}
